@@ -569,3 +569,42 @@ GUARD_HARNESSES = [
                              for o in ("raises_only_out_of_range", "accepts_only_in_range", "nothing_read_after_bad_index")]
      + ["guard.read_enum.symbol"]),
 ]
+
+
+# ---- leaf validators (E1): every int ------------------------------------------------------------
+
+VAL = "fastavro._validation_py"
+
+
+def h_validate_int_long(m):
+    n = m.int("n", -(1 << 70), 1 << 70)
+    mod = m.mod(VAL)
+    r = mod._validate_int(n)
+    m.prove("validate_int", Z(bool(r)) == z3.And(Z(n) >= -(1 << 31), Z(n) <= (1 << 31) - 1),
+            "_validate_int differs from the 32-bit range")
+    r = mod._validate_long(n)
+    m.prove("validate_long", Z(bool(r)) == z3.And(Z(n) >= -(1 << 63), Z(n) <= (1 << 63) - 1),
+            "_validate_long differs from the 64-bit range")
+    r = mod._validate_float(n)
+    m.prove("validate_float_accepts_int", Z(bool(r)) == True, "_validate_float rejects an int")
+
+
+def h_validate_kinds(m):
+    """bool is never an int/long/float; fixed: bytes of exactly the declared size"""
+    mod = m.mod(VAL)
+    b = m.bool("b")
+    for f in ("_validate_int", "_validate_long", "_validate_float"):
+        m.prove(f + ".rejects_bool", bool(getattr(mod, f)(b)) is False, f"{f} accepts a bool")
+    m.prove("_validate_boolean.accepts_bool", bool(mod._validate_boolean(b)) is True)
+    size = m.choice("size", 0, 4)
+    n = m.int("n", 0, 6, small=6)
+    blob = m.blob("P", n)
+    r = mod._validate_fixed(blob, schema={"type": "fixed", "name": "F", "size": size})
+    m.prove("validate_fixed", Z(bool(r)) == (Z(n) == size), "_validate_fixed differs from len == size")
+
+
+VALIDATOR_HARNESSES = [
+    (h_validate_int_long, "leaf", ["validate_int", "validate_long", "validate_float_accepts_int"]),
+    (h_validate_kinds, "leaf", ["_validate_int.rejects_bool", "_validate_long.rejects_bool", "_validate_float.rejects_bool",
+                                "_validate_boolean.accepts_bool", "validate_fixed"]),
+]
